@@ -31,14 +31,23 @@ def plan_inputs(exhaustive=True, rng=None, extra=0):
                 for dv in ("none", "all", "odd"):
                     for nm in ("a", "obs_x"):
                         for ck in (0, 7):
-                            out.append({"n": n, "edges": [{"u": u, "v": v} for u, v in es], "dv": dv,
-                                        "name": nm, "clock": ck})
+                            for rev in (False, True):
+                                out.append({"n": n, "edges": [{"u": u, "v": v} for u, v in es], "dv": dv,
+                                            "name": nm, "clock": ck, "rev": rev})
     for _ in range(extra):
         n = rng.randint(5, 14)
         es = [(u, v) for u in range(n) for v in range(u + 1, n) if rng.random() < 0.25]
         out.append({"n": n, "edges": [{"u": u, "v": v} for u, v in es], "dv": rng.choice(["none", "all", "odd"]),
-                    "name": rng.choice(["a", "obs_x", "emu"]), "clock": rng.randint(0, 50)})
+                    "name": rng.choice(["a", "obs_x", "emu"]), "clock": rng.randint(0, 50), "rev": rng.random() < 0.4})
     return out
+
+
+def _edge(x, e):
+    """edge u -> v of the input (v -> u when the labelling is reversed: node
+    labels then decrease along every path); volumes include 0 (pure control
+    dependencies)"""
+    a, b = (e["v"], e["u"]) if x.get("rev") else (e["u"], e["v"])
+    return {"source": a, "target": b, "transfer_data": (e["u"] + 2 * e["v"]) % 4}
 
 
 def run_plan(x, wd):
@@ -54,7 +63,7 @@ def run_plan(x, wd):
             d["task_data"] = 2
         nodes.append(d)
     g = {"directed": True, "multigraph": False, "graph": {}, "nodes": nodes,
-         "edges": [{"source": e["u"], "target": e["v"], "transfer_data": e["u"] + 2 * e["v"]} for e in x["edges"]]}
+         "edges": [_edge(x, e) for e in x["edges"]]}
     p = os.path.join(wd, "wf.json")
     with open(p, "w") as f:
         json.dump({"header": {}, "graph": g}, f)
@@ -97,7 +106,7 @@ def run_plan_shared(x, wd):
             d["task_data"] = 2
         nodes.append(d)
     g = {"directed": True, "multigraph": False, "graph": {}, "nodes": nodes,
-         "edges": [{"source": e["u"], "target": e["v"], "transfer_data": e["u"] + 2 * e["v"]} for e in x["edges"]]}
+         "edges": [_edge(x, e) for e in x["edges"]]}
     p = os.path.join(wd, "wf_shared_%d.json" % (abs(hash(json.dumps(x, sort_keys=True))) % 10 ** 9))
     with open(p, "w") as f:
         # generator metadata of the workflow file is not the simulator's business
